@@ -136,6 +136,8 @@ def run(vc):
         vc.explore(f"_recycled_powerflow[{'ac' if ac else 'dc'}]", h_rec, max_paths=400)
 
 
+    run_evaluate_net(vc)
+
     # ---- batch read eligibility against what the batch reader can derive -----------------------------------------------------
     RES_COLS = {"res_bus": ["vm_pu", "va_degree", "p_mw", "q_mvar"],
                 "res_line": ["p_from_mw", "q_from_mvar", "p_to_mw", "q_to_mvar", "pl_mw", "ql_mvar", "i_from_ka", "i_to_ka", "i_ka", "vm_from_pu",
@@ -191,6 +193,46 @@ def run(vc):
             vc.explore(f"batch_read[{table}.{variable}]", h_batch, max_paths=10)
 
 
+def run_evaluate_net(vc):
+    """_evaluate_net (one power flow of the control loop / of a time step): when the run function raises a convergence error the cached
+    network data net._ppc -- which the recycled power flow of the next run starts from -- is discarded before anything else runs, with
+    and without continue_on_divergence: the repair run and every later time step then build the network data anew."""
+    RC = "pandapower.control.run_control"
+
+    class NotConverged(Exception):
+        pass
+    for cont in (True, False):
+        for second_fails in ((True, False) if cont else (False,)):
+            def h(p, cont=cont, second_fails=second_fails):
+                from pyvc.interp import PyRaise
+                seen = []
+                stale = Opaque("ppc of the diverged run")
+                net = netmodel.Net({"_ppc": stale, "converged": False}, strict=False)
+
+                def run_funct(it, n, **k):
+                    seen.append(n.fields.raw("_ppc") if "_ppc" in n.fields.keys_list() else None)
+                    if len(seen) == 1 or second_fails:
+                        raise PyRaise(NotConverged("no convergence"))
+                    return None
+                me = p.it.modenv(RC)
+                me.vals["_control_repair"] = Native(lambda it, levelorder: seen.append("repair") or None, name="_control_repair", pure=False)
+                cv = PDict({"run": Native(run_funct, name="run", pure=False), "errors": (NotConverged,), "continue_on_divergence": cont,
+                            "converged": False})
+                out = p.call(f"{RC}:_evaluate_net", net, Opaque("levelorder"), cv)
+                tag = f"_evaluate_net[continue_on_divergence={cont},retry_fails={second_fails}]"
+                meta = dict(part="evaluate_net")
+                ppc_after = net.fields.raw("_ppc") if "_ppc" in net.fields.keys_list() else None
+                p.prove(f"{tag}: the cached network data of a diverged run is discarded", ppc_after is None, meta=meta,
+                        note="net._ppc is None when the function is left (by return or by re-raising)")
+                if cont:
+                    runs = [x for x in seen if x != "repair"]
+                    p.prove(f"{tag}: the repair run does not start from the data of the diverged run", len(runs) == 2 and runs[1] is None, meta=meta)
+                    p.prove(f"{tag}: returns normally", not out.raised, meta=meta)
+                else:
+                    p.prove(f"{tag}: the error is re-raised", out.raised, meta=meta)
+            vc.explore(f"_evaluate_net[{cont},{second_fails}]", h, max_paths=10)
+
+
 class _ContainsNet:
     """net for _check_output_writer_recyclability: 'output_writer' in net, net.output_writer.at[0, 'object']"""
 
@@ -207,6 +249,10 @@ def classify(ob, model):
 
 
 def replay(ob, model, finding=None):
+    if ob.meta.get("part") == "evaluate_net":
+        return {"script": f"# replay of {ob.id}\nfrom replaylib.timeseries_fresh import main_divergence\nmain_divergence()\n",
+                "description": "run_timeseries(continue_on_divergence=True) with one time step without a power flow solution: the steps after it "
+                               "against fresh power flows"}
     return {"script": f"# replay of {ob.id}\nfrom replaylib.timeseries_fresh import main\nmain()\n",
             "description": "run_timeseries with ConstControl on load / gen / trafo / trafo3w / line columns (with and without 2W transformers in the "
                            "net) against fresh power flows of every step"}
